@@ -283,7 +283,7 @@ def c09(req, ra, ctr):
     if ra[0] == 'err' and ra[1] not in ('IncompatibleSignatures', 'ValueError'):
         return ['bad-exception: merge raised %s' % ra[1]]
     # unary / idempotence / neutral element
-    bare_idx = [j for j, s in enumerate(ins) if [p[1] for p in s] == ['vp', 'vk']]
+    bare_idx = [j for j, s in enumerate(ins) if [p[1] for p in s] == ['vp', 'vk'] and all(q[3] is None for q in ds[j]['params'])]
     if len(ds) == 1:
         if ra != core.canon_sig(core.mk_sig(ds[0])):
             fails.append('unary: merge(s) != s for %s' % core.fmt_params(ins[0]))
@@ -301,6 +301,13 @@ def c09(req, ra, ctr):
         if ra[0] != 'ok' or strip(P_of(ra[1])) != strip(other):
             fails.append('neutral: merge with bare (*args, **kwargs) on side %d changed %s into %s' % (
                 bare_idx[0], core.fmt_params(other), core.fmt_params(P_of(ra[1])) if ra[0] == 'ok' else ra))
+        else:
+            # ... and keeps every annotation with its upgraded form (library equality looks at both)
+            want_ann = [(q[3], core.uann_desc_str(q[4])) for q in ds[1 - bare_idx[0]]['params']]
+            got_ann = [(q[3], q[4]) for q in ra[1]]
+            if got_ann != want_ann:
+                fails.append('neutral-annotations: merge with bare (*args, **kwargs) on side %d turned the annotations %s of %s into %s' % (
+                    bare_idx[0], want_ann, core.fmt_params(other), got_ann))
     al = aligned(ins)
     rc = role_cons(ins)
     if al:
